@@ -108,11 +108,11 @@ package ecs
 // respective mask and its mask is contained in the per-event union.
 
 //@ spec func obsWithAggOK(m *observerManager, e uint8) bool :=
-//@   m.anyNoWith[e] || (forall k int :: 0 <= k && k < len(m.observers[e]) ==>
-//@        m.observers[e][k].hasWith && (forall i uint8 :: mhas(m.observers[e][k].withMask, i) ==> mhas(m.allWith[e], i)))
+//@   m.anyNoWith[e] || (forall k int :: __trigger(m.observers[e][k]) && (0 <= k && k < len(m.observers[e]) ==>
+//@        m.observers[e][k].hasWith && msub(m.observers[e][k].withMask, m.allWith[e])))
 //@ spec func obsCompsAggOK(m *observerManager, e uint8) bool :=
-//@   m.anyNoComps[e] || (forall k int :: 0 <= k && k < len(m.observers[e]) ==>
-//@        m.observers[e][k].hasComps && (forall i uint8 :: mhas(m.observers[e][k].compsMask, i) ==> mhas(m.allComps[e], i)))
+//@   m.anyNoComps[e] || (forall k int :: __trigger(m.observers[e][k]) && (0 <= k && k < len(m.observers[e]) ==>
+//@        m.observers[e][k].hasComps && msub(m.observers[e][k].compsMask, m.allComps[e])))
 
 //@ pred obsRegistered(m *observerManager, o *Observer) :=
 //@      o != nil && __has(m.indices, o.id) && uint64(m.indices[o.id]) < uint64(len(m.observers[o.event]))
@@ -122,11 +122,11 @@ package ecs
 //@ func (*observerManager).RemoveObserver
 //@   serves C08
 //@   requires obsShape(m) && obsRegistered(m, o) && o.id != maxObserverID
-//@   loop 1 invariant with: obsShape(m) && (m.anyNoWith[o.event] || (forall k int :: 0 <= k && k < __idx ==>
-//@        m.observers[o.event][k].hasWith && (forall i uint8 :: mhas(m.observers[o.event][k].withMask, i) ==> mhas(allWith, i))))
+//@   loop 1 invariant with: obsShape(m) && (m.anyNoWith[o.event] || (forall k int :: __trigger(m.observers[o.event][k]) && (0 <= k && k < __idx ==>
+//@        m.observers[o.event][k].hasWith && msub(m.observers[o.event][k].withMask, allWith))))
 //@   loop 1 invariant nonnil: forall k int :: 0 <= k && k < len(m.observers[o.event]) ==> m.observers[o.event][k] != nil
-//@   loop 2 invariant comps: obsShape(m) && (m.anyNoComps[o.event] || (forall k int :: 0 <= k && k < __idx ==>
-//@        m.observers[o.event][k].hasComps && (forall i uint8 :: mhas(m.observers[o.event][k].compsMask, i) ==> mhas(allComps, i))))
+//@   loop 2 invariant comps: obsShape(m) && (m.anyNoComps[o.event] || (forall k int :: __trigger(m.observers[o.event][k]) && (0 <= k && k < __idx ==>
+//@        m.observers[o.event][k].hasComps && msub(m.observers[o.event][k].compsMask, allComps))))
 //@   loop 2 invariant nonnil: forall k int :: 0 <= k && k < len(m.observers[o.event]) ==> m.observers[o.event][k] != nil
 //@   loop 2 invariant with-done: obsWithAggOK(m, uint8(o.event))
 //@   ensures  with-aggregate: obsWithAggOK(m, uint8(old(o.event)))
